@@ -113,7 +113,7 @@ CHECKS = {
     "C19": {
         "level": "exploration",
         "technique": "property-based testing (rapid) over generated stage programs, trace equality against a recursive reference interpreter, concurrent requests sharing the chain",
-        "level_text": "Generated-program exploration: every stage of a chain is a small program over its continuation (0..3 calls, substituted message, derived context, last/first/substituted/error result); the same programs are run through the real client chain (scripted in-memory server as transport), the server message chain and the server batch-item chain, and through a 30-line recursive interpreter of the compositional semantics; event traces and the caller's result must be equal for every concurrent request.",
+        "level_text": "Generated-program exploration: every stage of a chain is a small program over its continuation (0..3 calls, substituted message, derived context, last/first/substituted/error result); the same programs are run through the real client chain (scripted in-memory server as transport), the server message chain and the server batch-item chain, and through a 30-line recursive interpreter of the compositional semantics; event traces and the caller's result must be equal for every concurrent request. TestC19Hedged adds invocations of a continuation that OVERLAP in time (the next attempt starts while the one before it is still inside the chain, sequenced by channels) on all three chains: every invocation enters exactly the remaining stages, once, and executes the core once.",
         "level_note": "For the client chain the context reaching the transport is not observable; core executions are counted at the scripted server. Batch-item stages return their error with an item of their own or with a nil item (the usual Go form).",
         "jobs": [dict(rapid("server", "TestC19Chains", 4000, 30000), race=True), dict(rapid("server", "TestC19Hedged", 2000, 20000), race=True)],
         "assumptions": [],
@@ -180,7 +180,7 @@ CHECKS = {
     "C20": {
         "level": "exploration",
         "technique": "property-based testing (rapid) over work lists and schedules, differential between fresh child processes (sequential reference vs concurrent cold start vs reused encoders), race detector on the concurrent child",
-        "level_text": "Generated-history exploration: each case is a work list of encode/decode jobs of mixed versions, types and encodings plus a schedule (goroutine count, start permutation, history prefix); three fresh processes execute it - sequentially, concurrently from a cold start (so the lazily built per-type plans are constructed under contention), and on reused cleared encoders in another order - and every job's digest over all four encodings and the text round trips must be identical. A race-built variant of the same test fails on any data race report.",
+        "level_text": "Generated-history exploration: each case is a work list of encode/decode jobs of mixed versions, types and encodings plus a schedule (goroutine count, start permutation, history prefix); three fresh processes execute it - sequentially, concurrently from a cold start (so the lazily built per-type plans are constructed under contention), and on reused cleared encoders in another order - and every job's digest over all four encodings and the text round trips must be identical. A race-built variant of the same test fails on any data race report. Two jobs with direct oracles complete it: TestC20Appended (two messages written on one encoder without Clear, or after a Clear made through a copy of the handle: the second one's bytes equal its encoding on a fresh encoder) and TestC20Versions (two messages of different versions encoded by 8 goroutines at once: every result equals the sequential reference).",
         "level_note": "Interleavings are explored by real concurrent execution from cold starts (the scheduler is not controlled); the race detector only sees races that occur in the executions run.",
         "jobs": [rapid("codec", "TestC20History", 120, 600, shards=8),
                  dict(rapid("codec", "TestC20History", 4, 20, shards=4), race="always", timeout_s={"quick": 600, "thorough": 1500}),
